@@ -15,7 +15,7 @@ import time
 VERIF = os.path.dirname(os.path.dirname(os.path.abspath(__file__)))
 REPO = os.environ.get("VERIF_REPO", "/repo")
 SPEC = os.path.join(VERIF, "spec")
-BUILD = os.path.join(VERIF, ".build")
+BUILD = os.environ.get("VERIF_BUILD", os.path.join(VERIF, ".build"))
 GOENV = dict(GOFLAGS="-mod=mod", GOPROXY="off")
 
 
@@ -67,13 +67,18 @@ def build_vh():
         return _built["vh"]
     os.makedirs(BUILD, exist_ok=True)
     hdir = os.path.join(VERIF, "harness")
-    shutil.copyfile(os.path.join(REPO, "go.sum"), os.path.join(hdir, "go.sum"))
     mod = open(os.path.join(hdir, "go.mod.in")).read().replace("@REPO@", REPO)
-    with open(os.path.join(hdir, "go.mod"), "w") as f:
+    # the real module file lives in the build directory (-modfile), so that builds against different checkouts of
+    # the repository (VERIF_REPO) do not fight over harness/go.mod; a go.mod must still exist to mark the module root
+    if not os.path.exists(os.path.join(hdir, "go.mod")):
+        with open(os.path.join(hdir, "go.mod"), "w") as f:
+            f.write(mod)
+    shutil.copyfile(os.path.join(REPO, "go.sum"), os.path.join(BUILD, "vh.sum"))
+    with open(os.path.join(BUILD, "vh.mod"), "w") as f:
         f.write(mod)
     out = os.path.join(BUILD, "vh")
     t = time.time()
-    sh(["go", "build", "-tags", "verif", "-o", out, "."], cwd=hdir, env=GOENV, timeout=1500)
+    sh(["go", "build", "-modfile", os.path.join(BUILD, "vh.mod"), "-tags", "verif", "-o", out, "."], cwd=hdir, env=GOENV, timeout=1500)
     log("[build] vh %.1fs" % (time.time() - t))
     _built["vh"] = out
     return out
@@ -324,7 +329,14 @@ def run_vh(ctx, sub, cases, args=None, timeout=900, env=None):
             f.write(json.dumps(c) + "\n")
     e = {"VERIF_SCRATCH": ctx.scratch, "VERIF_SEED": str(ctx.seed)}
     e.update(env or {})
-    p = sh([vh, sub, inp] + (args or []), timeout=timeout, check=False, env=e, cwd=ctx.scratch)
+    # stdout (observations) and stderr (the code's own logging) are kept apart so log lines cannot tear a JSON line
+    errp = inp + ".stderr"
+    with open(errp, "w") as errf:
+        try:
+            p = subprocess.run([vh, sub, inp] + (args or []), cwd=ctx.scratch, env=dict(os.environ, **e), timeout=timeout,
+                               stdout=subprocess.PIPE, stderr=errf, text=True, errors="replace")
+        except subprocess.TimeoutExpired as ex:
+            raise Infra("vh %s timed out after %ss" % (sub, timeout)) from ex
     obs = {}
     for line in (p.stdout or "").splitlines():
         if line.startswith("{"):
@@ -334,7 +346,7 @@ def run_vh(ctx, sub, cases, args=None, timeout=900, env=None):
                 continue
             obs[o.get("id")] = o
     if p.returncode != 0:
-        raise Infra("vh %s failed rc=%d:\n%s" % (sub, p.returncode, (p.stdout or "")[-3000:]))
+        raise Infra("vh %s failed rc=%d:\n%s\n%s" % (sub, p.returncode, (p.stdout or "")[-1500:], open(errp).read()[-3000:]))
     return obs
 
 
